@@ -131,50 +131,35 @@ Theorem C06_gauss_homodyne_pdraw_term :
 Proof. exact homodyne_pdraw_term. Qed.
 Print Assumptions C06_gauss_homodyne_pdraw_term.
 
-(* heterodyne: the full statement "same value => same state" is FALSE for the code as it is
-   (known finding heterodyne-select:gaussian-vs-bosonic); what holds instead: *)
-Definition C06_gauss_bosonic_select_heterodyne_full_statement : Prop :=
-  forall (K : Type) (k0 k1 : K) (kadd kmul ksub : K -> K -> K) (kopp : K -> K) (kdiv : K -> K -> K) (kinv : K -> K),
-  field_theory k0 k1 kadd kmul ksub kopp kdiv kinv eq ->
-  forall (r : vec K) (V : mat K) (k : nat) (are aim : K),
-  b_post_select_heterodyne K k0 k1 kadd kmul ksub kopp kdiv r V k are aim
-  = g_post_select_heterodyne K k0 k1 kadd kmul ksub kopp kdiv r V k are aim.
-
-Theorem C06_gauss_bosonic_select_heterodyne_refuted :
-  exists (r : vec Qc) (V : mat Qc) (k : nat) (are aim : Qc) (i : nat),
-    fst (g_het r V k are aim) i <> fst (b_het r V k are aim) i.
-Proof. exact heterodyne_select_refuted. Qed.
-Print Assumptions C06_gauss_bosonic_select_heterodyne_refuted.
-
-Theorem C06_gauss_bosonic_select_heterodyne_scaled :
+(* heterodyne: same value => same conditional state (holds since fix a15d68b of
+   BosonicBackend.measure_heterodyne) *)
+Theorem C06_gauss_bosonic_select_heterodyne :
   forall (K : Type) (k0 k1 : K) (kadd kmul ksub : K -> K -> K) (kopp : K -> K) (kdiv : K -> K -> K)
          (r : vec K) (V : mat K) (k : nat) (are aim : K),
-  b_post_select_heterodyne K k0 k1 kadd kmul ksub kopp kdiv r V k
-     (kmul (two K k1 kadd) are) (kmul (two K k1 kadd) aim)
+  b_post_select_heterodyne K k0 k1 kadd kmul ksub kopp kdiv r V k are aim
   = g_post_select_heterodyne K k0 k1 kadd kmul ksub kopp kdiv r V k are aim.
-Proof. exact heterodyne_select_scaled. Qed.
-Print Assumptions C06_gauss_bosonic_select_heterodyne_scaled.
+Proof. exact heterodyne_select_agree. Qed.
+Print Assumptions C06_gauss_bosonic_select_heterodyne.
 
-Theorem C06_gauss_bosonic_select_heterodyne_at_zero :
-  forall (K : Type) (k0 k1 : K) (kadd kmul ksub : K -> K -> K) (kopp : K -> K) (kdiv : K -> K -> K) (kinv : K -> K),
-  field_theory k0 k1 kadd kmul ksub kopp kdiv kinv eq ->
-  forall (r : vec K) (V : mat K) (k : nat),
-  b_post_select_heterodyne K k0 k1 kadd kmul ksub kopp kdiv r V k k0 k0
-  = g_post_select_heterodyne K k0 k1 kadd kmul ksub kopp kdiv r V k k0 k0.
-Proof. exact heterodyne_select_agree_at_zero. Qed.
-Print Assumptions C06_gauss_bosonic_select_heterodyne_at_zero.
+(* the entry point as it stood before that fix (b_post_select_heterodyne_old: alpha handed to the
+   circuit unscaled) did not satisfy the statement; witness and exact gap kept machine-checked *)
+Theorem C06_gauss_bosonic_select_heterodyne_old_refuted :
+  exists (r : vec Qc) (V : mat Qc) (k : nat) (are aim : Qc) (i : nat),
+    fst (g_het r V k are aim) i <> fst (b_het_old r V k are aim) i.
+Proof. exact heterodyne_select_old_refuted. Qed.
+Print Assumptions C06_gauss_bosonic_select_heterodyne_old_refuted.
 
-Theorem C06_gauss_bosonic_select_heterodyne_gap :
+Theorem C06_gauss_bosonic_select_heterodyne_old_gap :
   forall (K : Type) (k0 k1 : K) (kadd kmul ksub : K -> K -> K) (kopp : K -> K) (kdiv : K -> K -> K) (kinv : K -> K),
   field_theory k0 k1 kadd kmul ksub kopp kdiv kinv eq ->
   forall (r : vec K) (V : mat K) (k : nat) (are aim : K) (i : nat), deleted k i = false ->
   let W := inv2 K kmul ksub kopp kdiv (madd K kadd (blockC K V k) (sig_het K k0 k1)) in
   fst (g_post_select_heterodyne K k0 k1 kadd kmul ksub kopp kdiv r V k are aim) i
-  = kadd (fst (b_post_select_heterodyne K k0 k1 kadd kmul ksub kopp kdiv r V k are aim) i)
+  = kadd (fst (b_post_select_heterodyne_old K k0 k1 kadd kmul ksub kopp kdiv r V k are aim) i)
          (kadd (kmul (kadd (kmul (V i (2 * k)) (W 0 0)) (kmul (V i (S (2 * k))) (W 1 0))) are)
                (kmul (kadd (kmul (V i (2 * k)) (W 0 1)) (kmul (V i (S (2 * k))) (W 1 1))) aim)).
-Proof. exact heterodyne_select_gap. Qed.
-Print Assumptions C06_gauss_bosonic_select_heterodyne_gap.
+Proof. exact heterodyne_select_gap_old. Qed.
+Print Assumptions C06_gauss_bosonic_select_heterodyne_old_gap.
 
 (* --- value scaling (backend.py measure_homodyne, ops.py MeasureHomodyne._apply) --------------- *)
 
